@@ -263,31 +263,41 @@ class Ctx:
         return exe_p
 
     # ---------------------------------------------------------------- running cases
-    def run_lines(self, argv, lines, timeout=120, env=None, chunk=None):
+    def run_lines(self, argv, lines, timeout=120, env=None, chunk=None, line_timeout=None, max_timeouts=4):
         """feed `lines` to a line-in/line-out process; a crash or time-out is attributed to the line being processed.
-        returns a list of output strings, 'CRASH:<rc>:<stderr tail>' or 'TIMEOUT' for the culprit lines."""
+        returns a list of output strings, 'CRASH:<rc>:<stderr tail>' or 'TIMEOUT' for the culprit lines.
+        line_timeout (opt-in, only for harnesses that flush after every output line): the process is killed when no
+        complete output line arrived for that many seconds, so a hang costs line_timeout instead of the batch time-out;
+        after max_timeouts hangs the remaining lines are not run ('CRASH:skipped:...')."""
         res = []
         i = 0
         n = len(lines)
+        ntimeouts = 0
         while i < n:
+            if line_timeout and ntimeouts >= max_timeouts:
+                res.extend(['CRASH:skipped:not run after %d time-outs in this stream' % ntimeouts] * (n - i))
+                break
             batch = lines[i:i + (chunk or n)]
-            try:
-                p = subprocess.run(argv, input='\n'.join(batch) + '\n', stdout=subprocess.PIPE, stderr=subprocess.PIPE,
-                                   timeout=timeout, text=True, env=env, errors='replace')
-                outl = p.stdout.split('\n')
-                if outl and outl[-1] == '':
-                    outl.pop()
-                rc, err = p.returncode, p.stderr
-                timed = False
-            except subprocess.TimeoutExpired as e:
-                so = e.stdout or b''
-                so = so.decode('utf-8', 'replace') if isinstance(so, bytes) else so
-                outl = so.split('\n')
-                if outl and not so.endswith('\n'):
-                    outl.pop()          # partial line
-                if outl and outl[-1] == '':
-                    outl.pop()
-                rc, err, timed = -9, '', True
+            if line_timeout:
+                outl, rc, err, timed = self._run_stream(argv, batch, timeout, line_timeout, env)
+            else:
+                try:
+                    p = subprocess.run(argv, input='\n'.join(batch) + '\n', stdout=subprocess.PIPE, stderr=subprocess.PIPE,
+                                       timeout=timeout, text=True, env=env, errors='replace')
+                    outl = p.stdout.split('\n')
+                    if outl and outl[-1] == '':
+                        outl.pop()
+                    rc, err = p.returncode, p.stderr
+                    timed = False
+                except subprocess.TimeoutExpired as e:
+                    so = e.stdout or b''
+                    so = so.decode('utf-8', 'replace') if isinstance(so, bytes) else so
+                    outl = so.split('\n')
+                    if outl and not so.endswith('\n'):
+                        outl.pop()          # partial line
+                    if outl and outl[-1] == '':
+                        outl.pop()
+                    rc, err, timed = -9, '', True
             if len(outl) >= len(batch) and not timed:
                 res.extend(outl[:len(batch)])
                 i += len(batch)
@@ -296,8 +306,47 @@ class Ctx:
             k = min(len(outl), len(batch) - 1)
             res.extend(outl[:k])
             res.append('TIMEOUT' if timed else 'CRASH:%s:%s' % (rc, (err or '')[-600:].replace('\n', ' / ')))
+            ntimeouts += 1 if timed else 0
             i += k + 1
         return res
+
+    def _run_stream(self, argv, batch, timeout, line_timeout, env):
+        """run one batch, watching the output: returns (complete output lines, rc, stderr, timed_out)"""
+        import selectors, tempfile, threading
+        errf = tempfile.TemporaryFile()
+        p = subprocess.Popen(argv, stdin=subprocess.PIPE, stdout=subprocess.PIPE, stderr=errf, env=env)
+        data = ('\n'.join(batch) + '\n').encode()
+
+        def feed():
+            try:
+                p.stdin.write(data); p.stdin.close()
+            except Exception:
+                pass
+        th = threading.Thread(target=feed, daemon=True); th.start()
+        sel = selectors.DefaultSelector(); sel.register(p.stdout, selectors.EVENT_READ)
+        buf = b''; t0 = time.time(); last = t0; timed = False
+        while True:
+            now = time.time()
+            if now - t0 > timeout or now - last > line_timeout:
+                timed = True; p.kill(); break
+            ev = sel.select(timeout=min(1.0, line_timeout))
+            if not ev:
+                continue
+            chunk = os.read(p.stdout.fileno(), 65536)
+            if not chunk:
+                break
+            if b'\n' in chunk:
+                last = time.time()
+            buf += chunk
+        p.wait()
+        so = buf.decode('utf-8', 'replace')
+        outl = so.split('\n')
+        if outl and not so.endswith('\n'):
+            outl.pop()
+        if outl and outl[-1] == '':
+            outl.pop()
+        errf.seek(0); err = errf.read().decode('utf-8', 'replace'); errf.close()
+        return outl, (-9 if timed else p.returncode), err, timed
 
     # ---------------------------------------------------------------- bookkeeping
     def count(self, case_key, nontrivial=True):
